@@ -296,8 +296,9 @@ pub mod arbitrary_precision {
     {
         let n = BigDecimal::deserialize(deserializer)?;
 
-        if n.scale.abs() > SERDE_SCALE_LIMIT && SERDE_SCALE_LIMIT > 0 {
-            let msg = format!("Calculated exponent '{}' out of bounds", -n.scale);
+        // (checked_abs: the scale may be i64::MIN, whose absolute value does not exist)
+        if n.scale.checked_abs().map_or(true, |scale| scale > SERDE_SCALE_LIMIT) && SERDE_SCALE_LIMIT > 0 {
+            let msg = format!("Calculated exponent '{}' out of bounds", -(n.scale as i128));
             Err(serde::de::Error::custom(msg))
         } else {
             Ok(n)
@@ -358,8 +359,8 @@ pub mod arbitrary_precision_option {
 
         // same exponent limit as the non-optional adapter
         match n {
-            Some(ref d) if d.scale.abs() > SERDE_SCALE_LIMIT && SERDE_SCALE_LIMIT > 0 => {
-                let msg = format!("Calculated exponent '{}' out of bounds", -d.scale);
+            Some(ref d) if d.scale.checked_abs().map_or(true, |scale| scale > SERDE_SCALE_LIMIT) && SERDE_SCALE_LIMIT > 0 => {
+                let msg = format!("Calculated exponent '{}' out of bounds", -(d.scale as i128));
                 Err(serde::de::Error::custom(msg))
             }
             _ => Ok(n),
